@@ -1,6 +1,12 @@
 import Properties.C01
+import Properties.C01Sites
 #print axioms Hive.C01.eq_of_perm_of_sorted
 #print axioms Hive.C01.sortBy_eq_of_perm
 #print axioms Hive.C01.id_order_invariant
 #print axioms Hive.C01.lookup_perm
 #print axioms Hive.C01.driver_order_invariant
+#print axioms Hive.C01.update_order_invariant
+#print axioms Hive.C01.sortBy_eq_of_perm_on
+#print axioms Hive.C01Sites.sites_ok
+#print axioms Hive.C01Sites.anchors_present
+#print axioms Hive.C01Sites.reviewed_current
